@@ -6,7 +6,7 @@ want = set(base['stable_pass'])
 env = dict(os.environ)
 for k in ('GOFLAGS','GOTOOLCHAIN','GOSUMDB'):
     env.pop(k, None)
-p = subprocess.run(['go','test','-json','-vet=off','-count=1','-timeout','25m','./...'], cwd='/repo', env=env, capture_output=True, text=True)
+p = subprocess.run(['go','test','-json','-vet=off','-count=1','-timeout','25m','./...'], cwd=(sys.argv[1] if len(sys.argv) > 1 else '/repo'), env=env, capture_output=True, text=True)
 passed=set(); failed=set()
 for ln in p.stdout.splitlines():
     try: e=json.loads(ln)
